@@ -46,11 +46,29 @@ func c17Check(t failer, c *c17Case) (int, int, int) {
 	if ferr != nil || eerr != nil {
 		t.Fatalf("harness: %s rejected: %v %v", c.TextQ, ferr, eerr)
 	}
-	d := c.Datum.Interface()
+	k, d, e := c17Exec(t, c, f, ev, text, c.Datum.Interface(), c.Datum.String())
+	// the SAME filter must keep working on containers of other types, in any order of calls
+	intT, strT := uni.Scalar(uni.KInt), uni.Scalar(uni.KString)
+	probes := []*uni.Node{
+		uni.List(uni.ArrayOf(1, strT), uni.Str("x")),
+		uni.List(uni.ArrayOf(2, intT), uni.Int(uni.KInt, 1), uni.Int(uni.KInt, 2)),
+		uni.List(uni.ArrayOf(1, uni.Iface()), uni.InIface(uni.Str("x"))),
+		uni.List(uni.SliceOf(strT), uni.Str("x"), uni.Str("y")),
+		{T: uni.MapOf(strT, intT), Keys: []*uni.Node{uni.Str("a")}, Elems: []*uni.Node{uni.Int(uni.KInt, 1)}},
+	}
+	for _, p := range probes {
+		c17Exec(t, c, f, ev, text, p.Interface(), "probe "+p.String())
+	}
+	c17Exec(t, c, f, ev, text, c.Datum.Interface(), c.Datum.String()+" (again, after other containers)")
+	return k, d, e
+}
+
+// c17Exec checks one Execute call of filter f against evaluator ev, element by element.
+func c17Exec(t failer, c *c17Case, f *bexpr.Filter, ev *bexpr.Evaluator, text string, d interface{}, datumStr string) (int, int, int) {
 	before := uni.Snapshot(d)
 	out, err, pan := safeExecute(f, d)
 	if pan != nil {
-		violation(t, "C17", "TestC17_Filter", c, "Filter.Execute panicked: %v\n input: %s", pan, c.Datum)
+		violation(t, "C17", "TestC17_Filter", c, "Filter.Execute panicked: %v\n input: %s", pan, datumStr)
 	}
 	if after := uni.Snapshot(d); after != before {
 		violation(t, "C17", "TestC17_Filter", c, "Filter.Execute modified its input:\n before: %s\n after:  %s", before, after)
@@ -100,10 +118,10 @@ func c17Check(t failer, c *c17Case) (int, int, int) {
 			wantT = reflect.SliceOf(in.Type().Elem())
 		}
 		if !rv.IsValid() || rv.Type() != wantT {
-			violation(t, "C17", "TestC17_Filter", c, "result has type %T, want %s", out, wantT)
+			violation(t, "C17", "TestC17_Filter", c, "result has type %T, want %s\n input: %s", out, wantT, datumStr)
 		}
 		if rv.Len() != len(wantIdx) {
-			violation(t, "C17", "TestC17_Filter", c, "result has %d elements, %d elements of the input satisfy the expression (indices %v)\n input: %s", rv.Len(), len(wantIdx), wantIdx, c.Datum)
+			violation(t, "C17", "TestC17_Filter", c, "result has %d elements, %d elements of the input satisfy the expression (indices %v)\n input: %s", rv.Len(), len(wantIdx), wantIdx, datumStr)
 		}
 		for j, i := range wantIdx {
 			a, b := rv.Index(j), in.Index(i)
